@@ -149,5 +149,18 @@ Correct(seen, m, v, marks) == v \in Allowed(seen, m) /\ marks = ExpectedMarks(m,
 SubnetsOfSeats(seats, subSize) == {p \div subSize : p \in seats}
 SubnetValid(seats, subSize, subnet) == subnet \in SubnetsOfSeats(seats, subSize)
 
+(* Signature domain of a voluntary exit, as a function of the epochs (x carries head_epoch, exit_epoch,           *)
+(* deneb_epoch = DENEB_FORK_EPOCH, the head state's fork record fork_epoch / prev / cur and the capella version; *)
+(* versions are small integers):                                                                                 *)
+(*   head epoch >= DENEB_FORK_EPOCH (the head state is a deneb state, EIP-7044): CAPELLA_FORK_VERSION, whatever    *)
+(*                                    the exit epoch - this includes the FIRST deneb epoch;                        *)
+(*   before deneb:                   get_domain(state, DOMAIN_VOLUNTARY_EXIT, exit.epoch), i.e. the previous       *)
+(*                                    version for an exit dated before state.fork.epoch, the current one otherwise *)
+(* The condition "signature" of the exit topic holds iff the exit is signed by the validator's key under this      *)
+(* version (x.signed = the version really used, x.key_ok = right key, domain type and genesis validators root).    *)
+ExitDomainVersion(x) == IF x.head_epoch >= x.deneb_epoch THEN x.capella
+                        ELSE IF x.exit_epoch < x.fork_epoch THEN x.prev ELSE x.cur
+ExitSignatureValid(x) == x.key_ok = 1 /\ x.signed = ExitDomainVersion(x)
+
 EmptySeen == [k \in Caches |-> {}]
 =============================================================================
